@@ -1,7 +1,8 @@
 // C01 harness: libphysica's Interpolation / Interpolation_2D on the case file (grammar: checks/C01.py).
 // One line = one table + a list of queries; every query runs on a copy of the freshly constructed object
 // (the model's locate is the search of a fresh object; history independence is property C09), except in the
-// history modes h1 / h2 where all queries go to one live object; t3 drives the data-table constructor of Interpolation_2D.
+// history modes h1 / h2 where all queries go to one live object; t3 drives the data-table constructor of Interpolation_2D;
+// d1 / d2 drive the default constructors.
 #include "common.hpp"
 #include "libphysica/Numerics.hpp"
 using namespace libphysica;
@@ -437,6 +438,18 @@ static void handler(vh::Reader& r, vh::Out& o)
 		std::vector<double> xa = scaled(xd, xs), ya = scaled(yd, ys);
 		Interpolation_2D live = base;
 		queries2(r, o, Target2{&live, fresh ? &base : nullptr, nullptr, 0}, xa, ya);
+	}
+	else if(op == "d1")	  // the default-constructed object Interpolation()
+	{
+		Interpolation base;
+		queries1(r, o, base, std::vector<double> {-1.0, 0.0, 1.0});
+	}
+	else if(op == "d2")	  // the default-constructed object Interpolation_2D()
+	{
+		Interpolation_2D base;
+		std::vector<double> ax = {-1.0, 0.0, 1.0};
+		Interpolation_2D live = base;
+		queries2(r, o, Target2 {&live, &base, nullptr, 0}, ax, ax);
 	}
 	else if(op == "s1")
 		session1(r, o);
